@@ -114,3 +114,97 @@ func runSelftest(id string) *selftestResult {
 	}
 	return res
 }
+
+// Thorough tier: must-pass corpus. Every behaviour-preserving change under
+// /verif/benign/<id>/patch.diff is applied to a scratch copy and the property's
+// quick check is run against it: it must stay quiet. An alarm here is a false
+// alarm of the verifier (reported in evidence and on stdout as SELFTEST-FALSE-ALARM);
+// it is not a violation of the property on /repo. Changes listed in
+// /verif/benign/EXPECTED_BINDING.txt are known to need a contract edit (the
+// contract names a loop that the change restructures) and are reported as such.
+type mustPassResult struct {
+	Ran      int      `json:"ran"`
+	Quiet    int      `json:"quiet"`
+	Alarmed  []string `json:"alarmed"`
+	Expected []string `json:"expected_binding_alarms"`
+	Skipped  []string `json:"skipped"`
+}
+
+func runMustPass(id string) *mustPassResult {
+	res := &mustPassResult{}
+	patches, _ := filepath.Glob(filepath.Join(verifRoot, "benign", "*", "patch.diff"))
+	sort.Strings(patches)
+	expected := map[string]bool{}
+	if data, err := os.ReadFile(filepath.Join(verifRoot, "benign", "EXPECTED_BINDING.txt")); err == nil {
+		for _, l := range strings.Split(string(data), "\n") {
+			if f := strings.Fields(l); len(f) > 0 && !strings.HasPrefix(f[0], "#") {
+				expected[f[0]] = true
+			}
+		}
+	}
+	type out struct {
+		name, verdict, detail string
+	}
+	results := make([]out, len(patches))
+	sem := make(chan struct{}, 4)
+	done := make(chan int, len(patches))
+	self, _ := os.Executable()
+	for i, p := range patches {
+		go func(i int, p string) {
+			sem <- struct{}{}
+			defer func() { <-sem; done <- i }()
+			name := filepath.Base(filepath.Dir(p))
+			scratch, err := os.MkdirTemp("", "govc-scratch-")
+			if err != nil {
+				results[i] = out{name, "skipped", err.Error()}
+				return
+			}
+			defer os.RemoveAll(scratch)
+			if o, err := exec.Command("rsync", "-a", "--exclude", ".git", repoRoot+"/", scratch+"/").CombinedOutput(); err != nil {
+				results[i] = out{name, "skipped", "copy failed: " + string(o)}
+				return
+			}
+			if o, err := exec.Command("patch", "-p1", "-s", "-d", scratch, "-i", p).CombinedOutput(); err != nil {
+				results[i] = out{name, "skipped", "patch does not apply to the current tree: " + strings.TrimSpace(string(o))}
+				return
+			}
+			evd, _ := os.MkdirTemp("", "govc-scratch-ev-")
+			defer os.RemoveAll(evd)
+			c := exec.Command(self, "check", "--tier", "quick", id)
+			c.Env = append(os.Environ(), "GOVC_REPO="+scratch, "GOVC_EVIDENCE="+evd, "VERIF_TIER=quick")
+			o, err := c.CombinedOutput()
+			if err == nil {
+				results[i] = out{name, "quiet", ""}
+				return
+			}
+			first := ""
+			for _, l := range strings.Split(string(o), "\n") {
+				if strings.Contains(l, "failed obligation:") {
+					first = strings.TrimSpace(l)
+					break
+				}
+			}
+			results[i] = out{name, "alarm", truncate(first, 200)}
+		}(i, p)
+	}
+	for range patches {
+		<-done
+	}
+	for _, r := range results {
+		switch r.verdict {
+		case "skipped":
+			res.Skipped = append(res.Skipped, r.name+": "+r.detail)
+		case "quiet":
+			res.Ran++
+			res.Quiet++
+		case "alarm":
+			res.Ran++
+			if expected[r.name] && strings.Contains(r.detail, ":binding") {
+				res.Expected = append(res.Expected, r.name+": "+r.detail)
+			} else {
+				res.Alarmed = append(res.Alarmed, r.name+": "+r.detail)
+			}
+		}
+	}
+	return res
+}
